@@ -734,6 +734,95 @@ func (s *vC32State) craftedAddress(pool []vC32Wallet) {
 	}
 }
 
+// the points of small order other than the identity (orders 2, 4, 4, 8, 8, 8, 8)
+var vC32Torsion = []string{
+	"ecffffffffffffffffffffffffffffffffffffffffffffffffffffffffffff7f",
+	"0000000000000000000000000000000000000000000000000000000000000000",
+	"0000000000000000000000000000000000000000000000000000000000000080",
+	"26e8958fc2b227b045c3f489f2ef98f0d5dfac05d3c63339b13802886d53fc05",
+	"26e8958fc2b227b045c3f489f2ef98f0d5dfac05d3c63339b13802886d53fc85",
+	"c7176a703d4dd84fba3c0b760d10670f2a2053fa2c39ccc64ec7fd7792ac037a",
+	"c7176a703d4dd84fba3c0b760d10670f2a2053fa2c39ccc64ec7fd7792ac03fa",
+}
+
+// mixedOrderAddress prints a wallet's address with a point of small order added to its public view key and/or
+// public spend key. The holder's private keys belong to the original keys: if the parser accepts such a text, a
+// sender deriving for the accepted address and the holder deriving with the private keys must still agree.
+func (s *vC32State) mixedOrderAddress(pool []vC32Wallet) {
+	rng := s.rng
+	s.r.Eval()
+	w := pool[rng.Intn(len(pool))]
+	add := func(k crypto.Key) (crypto.Key, bool) {
+		tb, _ := hex.DecodeString(vC32Torsion[rng.Intn(len(vC32Torsion))])
+		t, err1 := new(edwards25519.Point).SetBytes(tb)
+		p, err2 := new(edwards25519.Point).SetBytes(k[:])
+		if err1 != nil || err2 != nil {
+			return k, false
+		}
+		var out crypto.Key
+		copy(out[:], new(edwards25519.Point).Add(p, t).Bytes())
+		return out, true
+	}
+	crafted := w.addr
+	which := rng.Intn(3)
+	ok := true
+	if which != 1 {
+		var o bool
+		crafted.PublicViewKey, o = add(w.addr.PublicViewKey)
+		ok = ok && o
+	}
+	if which != 0 {
+		var o bool
+		crafted.PublicSpendKey, o = add(w.addr.PublicSpendKey)
+		ok = ok && o
+	}
+	if !ok {
+		s.r.Count("mixed_order_address_not_buildable", 1)
+		return
+	}
+	class := [...]string{"view-key-plus-small-order-point", "spend-key-plus-small-order-point", "both-keys-plus-small-order-points"}[which]
+	text := vC32RefAddressString(common.MainAddressPrefix, crafted.PublicSpendKey[:], crafted.PublicViewKey[:], common.MainAddressPrefix)
+	var parsed common.Address
+	var err error
+	if !s.guard("common.NewAddressFromString", class, map[string]any{"text": text}, func() { parsed, err = common.NewAddressFromString(text) }) {
+		return
+	}
+	if err != nil {
+		s.r.Count("mixed_order_address_rejected_"+class, 1)
+		s.r.Nontrivial("mo" + text)
+		return
+	}
+	s.r.Count("mixed_order_address_accepted_"+class, 1)
+	for i := 0; i < 6; i++ {
+		r, _ := vC32RandPrivate(rng)
+		R := r.Public()
+		index, _ := vC32RandIndex(rng)
+		wit := map[string]any{"address_text": text, "class": class, "holder_public_spend": w.addr.PublicSpendKey.String(), "holder_public_view": w.addr.PublicViewKey.String(),
+			"holder_private_spend": w.addr.PrivateSpendKey.String(), "holder_private_view": w.addr.PrivateViewKey.String(), "r": r.String(), "index": index}
+		done := false
+		s.guard("ghost-derivation", class, wit, func() {
+			P := crypto.DeriveGhostPublicKey(&r, &parsed.PublicViewKey, &parsed.PublicSpendKey, index)
+			x := crypto.DeriveGhostPrivateKey(&R, &w.addr.PrivateViewKey, &w.addr.PrivateSpendKey, index)
+			wit["sender_key"] = P.String()
+			if pub := x.Public(); *P != pub {
+				wit["holder_one_time_public"] = pub.String()
+				s.r.Violation("C32|ghost|accepted-address-with-small-order-component|"+class,
+					"an address text whose key is the holder's key plus a point of small order is accepted, and the one-time key a sender derives for it is not the public key of the one-time private key its holder derives", wit)
+				done = true
+				return
+			}
+			if B := crypto.ViewGhostOutputKey(P, &w.addr.PrivateViewKey, &R, index); *B != parsed.PublicSpendKey {
+				s.r.Violation("C32|crypto.ViewGhostOutputKey|accepted-address-with-small-order-component|"+class,
+					"viewing an output sent to an accepted address with a small-order component does not recover that address's public spend key", wit)
+				done = true
+			}
+		})
+		if done {
+			return
+		}
+	}
+}
+
 func (s *vC32State) randomAddressText() {
 	rng := s.rng
 	var text string
@@ -1149,6 +1238,9 @@ func TestVerif_C32(t *testing.T) {
 	r.Count("addresses_printed_with_leading_1_digit", printedLeadingOne)
 	for i := 0; i < nCrafted; i++ {
 		s.craftedAddress(pool)
+	}
+	for i := 0; i < nCrafted/20; i++ {
+		s.mixedOrderAddress(pool)
 	}
 	for i := 0; i < nRandomText; i++ {
 		s.randomAddressText()
